@@ -1,8 +1,110 @@
+import QcoVerif.Model.Ident
 /-
-  Stateless driver module `ident`: `handle args` answers one line. Filled in by the Ident model.
+  Stateless driver module `ident` (C19).  One query per line, one answer per line.
+
+    ident match q1 c1 q2 c2           → "<matches> <hashKey equal> <setHit>"          (c ∈ R M F A)
+    ident qeq n1 n2                   → "<QubitId.eq>"
+    ident eeq a b c d ha hb hc hd     → "<(a,b).eq (c,d)> lo1 hi1 lo2 hi2 <hashKey equal> <setHit stored=(a,b) probe=(c,d)>"
+    ident pyeq <obj> <obj>            → "<Obj.pyEq>"     obj = c:<q>:<ch> | q:<name> | f:<name> | e:<a>:<b> | o:<tag>
+    ident uniq int  i,i,…             → "<uniqueLoop (==)> <uniqueInOrder>"
+    ident uniq str  s,s,…             (tokens are opaque strings)   same
+    ident uniq qubit n,n,…            → loop with (hash name, QubitId.eq) and uniqueInOrder
+    ident uniq chan q:c,q:c,…         → "<uniqueLoop ChId.setHit> <dedupChans>"
+    ident uniq edge a:b,… n=h,n=h,…   → "<uniqueLoop (EdgeId.setHit h)>"   (h = the table; absent names hash to 0)
+  Lists are comma separated, "-" = empty.
 -/
 namespace Qco.Driver.Ident
+open Qco
 
-def handle (_args : List String) : String := "bad-op"
+def b2s (b : Bool) : String := if b then "1" else "0"
+
+def parseChan? : String → Option Chan
+  | "A" => some .all | "R" => some .ro | "M" => some .mw | "F" => some .fl | _ => none
+
+def chanCode : Chan → String
+  | .all => "A" | .ro => "R" | .mw => "M" | .fl => "F"
+
+def parseChId? (s : String) : Option ChId :=
+  match s.splitOn ":" with
+  | [q, c] => do some ⟨← q.toInt?, ← parseChan? c⟩
+  | _ => none
+
+def parseEdge? (s : String) : Option EdgeId :=
+  match s.splitOn ":" with
+  | [a, b] => some ⟨⟨a⟩, ⟨b⟩⟩
+  | _ => none
+
+def parseObj? (s : String) : Option Obj :=
+  match s.splitOn ":" with
+  | ["c", q, c] => do some (.chan ⟨← q.toInt?, ← parseChan? c⟩)
+  | ["q", n] => some (.qubit ⟨n⟩)
+  | ["f", n] => some (.feedline n)
+  | ["e", a, b] => some (.edge ⟨⟨a⟩, ⟨b⟩⟩)
+  | ["o", t] => t.toNat?.map .other
+  | _ => none
+
+def parseList {α} (p : String → Option α) (s : String) : Option (List α) :=
+  if s == "-" then some [] else (s.splitOn ",").mapM p
+
+def showList {α} (f : α → String) (l : List α) : String :=
+  if l.isEmpty then "-" else ",".intercalate (l.map f)
+
+def parseTable (s : String) : Option (List (String × Int)) :=
+  parseList (fun t => match t.splitOn "=" with
+    | [n, h] => h.toInt?.map (fun v => (n, v))
+    | _ => none) s
+
+def tableHash (t : List (String × Int)) (n : String) : Int :=
+  ((t.find? (·.1 == n)).map (·.2)).getD 0
+
+def showChId (c : ChId) : String := s!"{c.q}:{chanCode c.c}"
+def showEdge (e : EdgeId) : String := s!"{e.q0.name}:{e.q1.name}"
+
+def handle (args : List String) : String :=
+  match args with
+  | ["match", q1, c1, q2, c2] =>
+    match q1.toInt?, parseChan? c1, q2.toInt?, parseChan? c2 with
+    | some q1, some c1, some q2, some c2 =>
+      let a : ChId := ⟨q1, c1⟩
+      let b : ChId := ⟨q2, c2⟩
+      s!"{b2s (a.matches b)} {b2s (a.hashKey == b.hashKey)} {b2s (a.setHit b)}"
+    | _, _, _, _ => "bad-op"
+  | ["qeq", a, b] => b2s ((QubitId.mk a).eq ⟨b⟩)
+  | ["eeq", a, b, c, d, ha, hb, hc, hd] =>
+    match ha.toInt?, hb.toInt?, hc.toInt?, hd.toInt? with
+    | some ha, some hb, some hc, some hd =>
+      let h := tableHash [(a, ha), (b, hb), (c, hc), (d, hd)]
+      let e : EdgeId := ⟨⟨a⟩, ⟨b⟩⟩
+      let f : EdgeId := ⟨⟨c⟩, ⟨d⟩⟩
+      let ke := e.hashKey h
+      let kf := f.hashKey h
+      s!"{b2s (e.eq f)} {ke.1} {ke.2} {kf.1} {kf.2} {b2s (ke == kf)} {b2s (e.setHit h f)}"
+    | _, _, _, _ => "bad-op"
+  | ["pyeq", a, b] =>
+    match parseObj? a, parseObj? b with
+    | some a, some b => b2s (a.pyEq b)
+    | _, _ => "bad-op"
+  | ["uniq", "int", l] =>
+    match parseList String.toInt? l with
+    | some l => s!"{showList toString (uniqueLoop (fun s x => s == x) l)} {showList toString (uniqueInOrder l)}"
+    | none => "bad-op"
+  | ["uniq", "str", l] =>
+    match parseList (fun s => some s) l with
+    | some (l : List String) => s!"{showList id (uniqueLoop (fun s x => s == x) l)} {showList id (uniqueInOrder l)}"
+    | none => "bad-op"
+  | ["uniq", "qubit", l] =>
+    match parseList (fun s => some (QubitId.mk s)) l with
+    | some l =>
+      s!"{showList QubitId.name (uniqueLoop (setHit (fun q => q.name) QubitId.eq) l)} {showList QubitId.name (uniqueInOrder l)}"
+    | none => "bad-op"
+  | ["uniq", "chan", l] =>
+    match parseList parseChId? l with
+    | some l => s!"{showList showChId (uniqueLoop ChId.setHit l)} {showList showChId (dedupChans l)}"
+    | none => "bad-op"
+  | ["uniq", "edge", l, t] =>
+    match parseList parseEdge? l, parseTable t with
+    | some l, some t => showList showEdge (uniqueLoop (EdgeId.setHit (tableHash t)) l)
+    | _, _ => "bad-op"
+  | _ => "bad-op"
 
 end Qco.Driver.Ident
